@@ -1379,32 +1379,66 @@ func ruleGapScanNotBypassed(c *Ctx) {
 		return
 	}
 	info := s.Info
-	var fewRows func(e ast.Expr) bool
-	fewRows = func(e ast.Expr) bool {
+	// fewRows(e, val): condition e having the truth value val implies "too few rows / the time
+	// column cannot be read" — `a || b` true needs both sides to imply it, `a && b` true one of
+	// them; for val == false the roles are swapped (De Morgan), so the early-return form
+	// `if err != nil || len(x) < 2 { return }` and the nested form `if err == nil && len(x) >= 2 {…}`
+	// are the same guard.
+	var fewRows func(e ast.Expr, val bool) bool
+	fewRows = func(e ast.Expr, val bool) bool {
 		e = unparen(e)
-		if b, ok := e.(*ast.BinaryExpr); ok {
-			switch b.Op {
-			case token.LOR:
-				return fewRows(b.X) && fewRows(b.Y)
-			case token.EQL, token.NEQ, token.LSS, token.LEQ:
-				for _, pair := range [][2]ast.Expr{{b.X, b.Y}, {b.Y, b.X}} {
-					x, y := unparen(pair[0]), unparen(pair[1])
-					if isNilIdent(info, y) {
-						return true // err != nil, epochs == nil
-					}
-					if cx, ok := x.(*ast.CallExpr); ok {
-						nm := ""
-						if id, ok := unparen(cx.Fun).(*ast.Ident); ok {
-							nm = id.Name
-						} else if sel, ok := unparen(cx.Fun).(*ast.SelectorExpr); ok {
-							nm = sel.Sel.Name
-						}
-						if nm == "len" || nm == "Len" {
-							if v, ok := constInt(info, y); ok && v <= 2 {
-								return true
-							}
-						}
-					}
+		if u, ok := e.(*ast.UnaryExpr); ok && u.Op == token.NOT {
+			return fewRows(u.X, !val)
+		}
+		b, ok := e.(*ast.BinaryExpr)
+		if !ok {
+			return false
+		}
+		switch b.Op {
+		case token.LOR:
+			if val {
+				return fewRows(b.X, true) && fewRows(b.Y, true)
+			}
+			return fewRows(b.X, false) || fewRows(b.Y, false)
+		case token.LAND:
+			if val {
+				return fewRows(b.X, true) || fewRows(b.Y, true)
+			}
+			return fewRows(b.X, false) && fewRows(b.Y, false)
+		case token.EQL, token.NEQ, token.LSS, token.LEQ, token.GTR, token.GEQ:
+			for i, pair := range [][2]ast.Expr{{b.X, b.Y}, {b.Y, b.X}} {
+				x, y := unparen(pair[0]), unparen(pair[1])
+				if isNilIdent(info, y) && (b.Op == token.EQL || b.Op == token.NEQ) {
+					// err != nil (an error is set), epochs == nil (no data)
+					isNeq := (b.Op == token.NEQ) == val
+					return isNeq == isErrorType(info.TypeOf(x))
+				}
+				cx, ok := x.(*ast.CallExpr)
+				if !ok {
+					continue
+				}
+				nm := ""
+				if id, ok := unparen(cx.Fun).(*ast.Ident); ok {
+					nm = id.Name
+				} else if sel, ok := unparen(cx.Fun).(*ast.SelectorExpr); ok {
+					nm = sel.Sel.Name
+				}
+				v, isC := constInt(info, y)
+				if (nm != "len" && nm != "Len") || !isC {
+					continue
+				}
+				op := b.Op
+				if i == 1 { // constant on the left: mirror
+					op = map[token.Token]token.Token{token.LSS: token.GTR, token.LEQ: token.GEQ, token.GTR: token.LSS, token.GEQ: token.LEQ, token.EQL: token.EQL, token.NEQ: token.NEQ}[op]
+				}
+				if !val { // negate
+					op = map[token.Token]token.Token{token.LSS: token.GEQ, token.LEQ: token.GTR, token.GTR: token.LEQ, token.GEQ: token.LSS, token.EQL: token.NEQ, token.NEQ: token.EQL}[op]
+				}
+				switch op {
+				case token.LSS:
+					return v <= 2
+				case token.LEQ, token.EQL:
+					return v <= 1
 				}
 			}
 		}
@@ -1421,7 +1455,7 @@ func ruleGapScanNotBypassed(c *Ctx) {
 	r := s.Run(Query{Barrier: scan, ExitIsTarget: true, OnlyNilErrorReturns: false, WholeFacts: true,
 		Exempt: func(f []Fact) bool {
 			for _, x := range f {
-				if x.Whole && x.Val && fewRows(x.Expr) {
+				if x.Whole && fewRows(x.Expr, x.Val) {
 					return true
 				}
 			}
